@@ -221,9 +221,10 @@ class Color:
         raise ValueError('Illegal color values')
 
     def opacity(self, *args):
+        """ Not implemented: let the call through unchanged
+        (opacity() is also a CSS filter function).
         """
-        """
-        pass
+        raise ValueError('Not implemented')
 
     def lighten(self, color, diff, *args):
         """ Lighten a color
